@@ -208,7 +208,6 @@ func scenarios(check string) []scenario {
 		// n=3: the abort rounds carry honest parties' openings as well; every honest signer must single out the cheater
 		l = append(l, scenario{Name: "cmp-presign/n3/t1/state-level-blame", Proto: "cmp-presign", N: 3, T: 1, Cost: 2, StateOnly: true, BlameOnly: true})
 	}
-	add("cmp-sign", 2, 1, 2)
 	addPool := func(proto string, n, t, cost int) {
 		l = append(l, scenario{Name: fmt.Sprintf("%s/n%d/t%d/pool2", proto, n, t), Proto: proto, N: n, T: t, Cost: cost, Pool: 2})
 	}
@@ -228,6 +227,7 @@ func scenarios(check string) []scenario {
 			addPool("cmp-refresh", 2, 1, 2)
 		}
 	}
+	add("cmp-sign", 2, 1, 2) // the largest quick-tier catalogue comes last: an internal deadline, if ever hit, cuts only it
 	if vkit.Thorough() {
 		if check == "C04" {
 			add("cmp-presign", 3, 1, 2) // n=3: relayed abort notices exist
